@@ -67,45 +67,45 @@ ASSUME_FP = ['x86-64 SSE2 floating point without FMA contraction and without -ff
 
 REGISTRY = {}
 
-REGISTRY['C02'] = numeric('C02', 'c02_exp.cpp', nq=30000, nt=2000000,
+REGISTRY['C02'] = numeric('C02', 'c02_exp.cpp', nq=30000, nt=1000000,
                           rule='exp: ' + RULE_STRATA, assumptions=ASSUME_FP)
-REGISTRY['C03'] = numeric('C03', 'c03_log.cpp', nq=30000, nt=2000000,
+REGISTRY['C03'] = numeric('C03', 'c03_log.cpp', nq=30000, nt=1000000,
                           rule='log: production routes {independent coefficients in both hemispheres, inverse, exp, exp beyond pi, products of two near-pi '
                                'rotations about almost the same axis (angle 2pi-eps), Random()} x ' + RULE_STRATA, assumptions=ASSUME_FP)
-REGISTRY['C01'] = numeric('C01', 'c01_group.cpp', nq=20000, nt=1000000,
+REGISTRY['C01'] = numeric('C01', 'c01_group.cpp', nq=20000, nt=500000,
                           rule='group law: triples (X,Y,Z) of elements built from independently normalised rotation data in both hemispheres or through exp '
                                '(incl. beyond pi), Y=X and Y=Identity forced periodically, points up to 1e6; ' + RULE_STRATA, assumptions=ASSUME_FP)
-REGISTRY['C06'] = numeric('C06', 'c06_jac.cpp', nq=8000, nt=400000,
+REGISTRY['C06'] = numeric('C06', 'c06_jac.cpp', nq=8000, nt=200000,
                           rule='tangent Jacobians and adjoints: ' + RULE_STRATA, assumptions=ASSUME_FP + ['float instantiations are held to 1e-2 only (the property states its bound for double)'])
 
-REGISTRY['C05'] = numeric('C05', 'c05_jacobians.cpp', nq=3000, nt=150000, shard=2500, float_groups=['SE2', 'SO3', 'SE3', 'SGAL3'], float_n_scale=0.3,
+REGISTRY['C05'] = numeric('C05', 'c05_jacobians.cpp', nq=3000, nt=80000, shard=2500, float_groups=['SE2', 'SO3', 'SE3', 'SGAL3'], float_n_scale=0.3,
                           n_scale={'BT1': 0.4, 'BT4': 0.25, 'BT0': 0.5, 'BT2': 0.3, 'BT3': 0.2, 'BT5': 0.3, 'BT6': 0.5, 'BR0': 0.6, 'BR2': 0.5, 'BA': 0.6, 'SGAL3': 0.6, 'SE23': 0.7},
                           rule='Jacobians of inverse, log, exp, compose, between, rplus, lplus, rminus, lminus, act (each w.r.t. every argument), plus/minus aliases and tangent plus/minus; '
                                'per case 4 (2 for large bundles) operations are drawn; operands: element X, tangent t, second element Y either independent or at the stratified relative transform exp(t) from X; '
                                + RULE_STRATA, assumptions=ASSUME_FP + ['oracle Jacobian = 4th-order central differences of the definition on the long-double model, step min(1e-4, 0.01*(pi-theta))',
                                                                        'float instantiations are held to 1e-2 only (the property states its bound for double)'])
 
-REGISTRY['C04'] = numeric('C04', 'c04_plusminus.cpp', nq=15000, nt=600000,
+REGISTRY['C04'] = numeric('C04', 'c04_plusminus.cpp', nq=15000, nt=300000,
                           rule='plus/minus/between definitions vs model and 45 alias forms (members, operators, tangent-side forms, functions.h facade, Map operands) compared bit-for-bit '
                                'with the canonical member; ' + RULE_STRATA, assumptions=ASSUME_FP)
 
 ALL_BUNDLES = ['BT0', 'BT1', 'BT2', 'BT3', 'BT4', 'BT5', 'BT6', 'BS0', 'BS1', 'BS2', 'BS3', 'BS4', 'BS5', 'BS6', 'BR0', 'BR1', 'BR2', 'BL0', 'BA', 'BC', 'BD']
 ALL_RN = ['R1', 'R2', 'R3', 'R4', 'R5', 'R6', 'R7', 'R8', 'R9']
 C07_GROUPS = ['SO2', 'SE2', 'SO3', 'SE3', 'SE23', 'SGAL3'] + ALL_RN + ALL_BUNDLES
-REGISTRY['C07'] = numeric('C07', 'c07_algebra.cpp', nq=4000, nt=200000, groups_q=C07_GROUPS, groups_t=C07_GROUPS, float_groups=CORE,
+REGISTRY['C07'] = numeric('C07', 'c07_algebra.cpp', nq=4000, nt=100000, groups_q=C07_GROUPS, groups_t=C07_GROUPS, float_groups=CORE,
                           rule='every generator index 0<=i<DoF of every group / Rn n=1..9 / 21 bundle layouts is enumerated (exhaustive) and compared entry-wise with the documented table, 7 out-of-range '
                                'indices must raise invalid_argument; hat/vee/bracket/inner identities on random tangent triples (every fifth triple small integers, where every identity must hold exactly); '
                                + RULE_STRATA, assumptions=ASSUME_FP)
 
-REGISTRY['C15'] = numeric('C15', 'c15_interp.cpp', nq=6000, nt=300000, groups_q=CORE + ['BT1', 'BT4'], groups_t=CORE + ['R1', 'R9', 'BT0', 'BT1', 'BT3', 'BT4', 'BA'],
+REGISTRY['C15'] = numeric('C15', 'c15_interp.cpp', nq=6000, nt=150000, groups_q=CORE + ['BT1', 'BT4'], groups_t=CORE + ['R1', 'R9', 'BT0', 'BT1', 'BT3', 'BT4', 'BA'],
                           rule='pairs (A, B=A*exp(tab)) with relative rotation stratified up to pi-1e-6 and translations up to 1e6, arbitrary end velocities (zero every third case), 3 methods x {t=0, t=1, interior t, 10 parameters outside [0,1] incl. +-inf, NaN, -denorm_min, nextafter(1)}; '
                                'SLERP vs the model geodesic and vs left translation by a random L; smoothing_phi on a 20000-point grid for degrees 1..4, unsupported degrees {0,5,6,100,SIZE_MAX}; ' + RULE_STRATA, assumptions=ASSUME_FP)
 
-REGISTRY['C16'] = numeric('C16', 'c16_average.cpp', nq=1500, nt=100000, groups_q=CORE + ['R1', 'BT1'], groups_t=CORE + ['R1', 'R9', 'BT0', 'BT1', 'BT4', 'BA'], float_groups=['SE2', 'SO3', 'SE3'], shard=5000,
+REGISTRY['C16'] = numeric('C16', 'c16_average.cpp', nq=1500, nt=50000, groups_q=CORE + ['R1', 'BT1'], groups_t=CORE + ['R1', 'R9', 'BT0', 'BT1', 'BT4', 'BA'], float_groups=['SE2', 'SO3', 'SE3'], shard=5000,
                           rule='clouds of 1..50 points C (+) d_i around a centre C drawn from all rotation strata (incl. within 1e-12 of pi) with coordinates up to 1e3, radius log-uniform in [1e-6,0.5] (0.5 every fifth case), identical points every ninth case; '
                                'four routines; stationarity measured with the model logarithm; random permutation; left/right translations by random elements; ' + RULE_STRATA, assumptions=ASSUME_FP)
 
-REGISTRY['C18'] = numeric('C18', 'c18_approx.cpp', nq=20000, nt=1000000,
+REGISTRY['C18'] = numeric('C18', 'c18_approx.cpp', nq=20000, nt=500000,
                           rule='elements with coordinates from 0 and 1e-8 up to 1e9 (float: 1e4) and SGal3 times up to 1e3: reflexivity of isApprox/== (three eps), equality of q and -q; pairs Y = X (+) d with ||d||_inf = eps/100 and 100 eps for eps in {1e-12..1e-2}, '
                                'judged only when eps >= 1e4*u*max|coordinate|*max|time| (otherwise counted unresolvable); tangents with norms 1e-12..1e9: identical, against zero at eps/10 and 10 eps, relative at (1 +- eps/10) and (1 +- 10 eps); ' + RULE_STRATA,
                           assumptions=ASSUME_FP + ['X == X relies on bit-exact cancellation of X^-1*X, which holds only under the baseline FP model (no FMA contraction)'])
@@ -121,17 +121,17 @@ def c09_post(fold):
         fold.counters['golden-evaluations/' + gs] = sum(d.values())
         if len(d) != 1:
             fold.viol('results-differ-between-processes/' + gs, 1.0, {'digests': d})
-REGISTRY['C09'] = numeric('C09', 'c09_pure.cpp', nq=4000, nt=400000, min_shards=4, groups_q=CORE + ['R1', 'BT1', 'BT4'], post=c09_post,
+REGISTRY['C09'] = numeric('C09', 'c09_pure.cpp', nq=4000, nt=100000, min_shards=4, groups_q=CORE + ['R1', 'BT1', 'BT4'], post=c09_post,
                           rule='17 Jacobian-returning operations x all subsets of their optional outputs ({}, G::_, real matrices, interior blocks of NaN-canary matrices at random offsets) on stratified operands; operands snapshotted bit-wise around every call; '
                                '13 aliased assignment forms vs the unaliased computation; 20 fixed golden operand sets evaluated first thing in half of the processes and in the middle / at the end of every process: one digest per group across all processes; '
                                + RULE_STRATA, assumptions=ASSUME_FP)
 
-REGISTRY['C10'] = numeric('C10', 'c10_views.cpp', nq=2500, nt=250000, groups_q=CORE + ['R1', 'R9', 'BT1', 'BT4'], groups_t=CORE + ['R1', 'R9'] + BUNDLES_T + ['BL0'],
+REGISTRY['C10'] = numeric('C10', 'c10_views.cpp', nq=2500, nt=50000, groups_q=CORE + ['R1', 'R9', 'BT1', 'BT4'], groups_t=CORE + ['R1', 'R9'] + BUNDLES_T + ['BL0'],
                           rule='~45 non-mutating operations evaluated with 9 combinations of operand kinds {owning, Map, Map<const>} for (X, Y, t) and compared bit for bit with the owning computation; 13 group and 12 tangent mutating members through a '
                                'mutable view; every viewed buffer is, at random, an exactly-sized malloc block (ASan red-zones), the same shifted by one scalar (8-/4-byte-only alignment), or embedded between NaN-payload canaries compared bit for bit '
                                'after each call; copy/move/cross-kind construction and assignment; ' + RULE_STRATA, assumptions=ASSUME_FP + ['ASan red-zones detect reads/writes adjacent to exactly-sized heap blocks; far out-of-bounds accesses could escape them'])
 
-REGISTRY['C11'] = numeric('C11', 'c11_bundle.cpp', nq=1500, nt=150000, groups_q=ALL_BUNDLES, groups_t=ALL_BUNDLES, float_groups=['BT3', 'BT5', 'BA'],
+REGISTRY['C11'] = numeric('C11', 'c11_bundle.cpp', nq=1500, nt=30000, groups_q=ALL_BUNDLES, groups_t=ALL_BUNDLES, float_groups=['BT3', 'BT5', 'BA'],
                           rule='21 bundle layouts (7 cyclic triples of SO2 SE2 SO3 SE3 SE_2_3 SGal3 R3 = every group first/middle/last, 7 single-element bundles, 3 with repeats, one of all seven + R5, the 3 layouts of the existing tests); per case '
                                '24 bundle operations are computed once and compared bit for bit, element by element, with the standalone element group at offsets from the monitor\'s own prefix sums; 22 Jacobian-like outputs pre-filled with NaN must be '
                                'block-diagonal with exact zeros elsewhere; every generator index of every layout is enumerated; a cell is (operation, layout, element index); ' + RULE_STRATA, assumptions=ASSUME_FP)
@@ -163,7 +163,7 @@ def c13_spec():
     return {'bins': bins, 'run': run}
 REGISTRY['C13'] = c13_spec()
 
-REGISTRY['C12'] = numeric('C12', 'c12_jet.cpp', build='jet', nq=1500, nt=150000, groups_q=['SO2', 'SE2', 'SO3', 'SE3', 'SE23', 'SGAL3', 'R3', 'BT1'], groups_t=['SO2', 'SE2', 'SO3', 'SE3', 'SE23', 'SGAL3', 'R3', 'R1', 'BT1', 'BT4', 'BA'], float_groups=[],
+REGISTRY['C12'] = numeric('C12', 'c12_jet.cpp', build='jet', nq=1500, nt=50000, groups_q=['SO2', 'SE2', 'SO3', 'SE3', 'SE23', 'SGAL3', 'R3', 'BT1'], groups_t=['SO2', 'SE2', 'SO3', 'SE3', 'SE23', 'SGAL3', 'R3', 'R1', 'BT1', 'BT4', 'BA'], float_groups=[],
                           shard=5000, n_scale={'BT1': 0.5, 'BT4': 0.3, 'SGAL3': 0.6},
                           rule='operations evaluated over ceres::Jet<double,2*DoF> (stand-in) with unit infinitesimals seeded on every argument; primal parts vs the double instantiation, dual parts of f(X (+) d) (-) f(X) at d=0 vs the analytic Jacobian of the same call; '
                                'manif/ceres functors (manifold Plus/Minus, local parameterisation, objective, constraint) through raw double* and Jet* arrays; argument rotation from every stratum incl. theta=0, below and just above sqrt(eps); '
